@@ -141,6 +141,8 @@ def frame_obligations(ctx, py, prefix, modules):
     """Frame obligations of every function / method of the given modules, under another property's name: a contract
     'result == spec(arguments)' is only meaningful for a function that keeps no state between calls and leaves its
     arguments alone, so each property re-establishes the frame of the modules it puts under contract."""
+    from pvx import deps as _deps
+    _deps.external_binding_obligations(ctx, py, prefix, modules)
     for (m, f) in sorted(frame_table(py)):
         if m in modules:
             emit_frame(ctx, py, prefix, m, f)
@@ -148,6 +150,8 @@ def frame_obligations(ctx, py, prefix, modules):
 
 def _frames(ctx, py):
     t0 = time.time()
+    from pvx import deps as _deps
+    _deps.external_binding_obligations(ctx, py, "C19", set(MODULES))
     table = frame_table(py)
     dt = (time.time() - t0) / max(1, len(table))
     for (m, f) in table:
